@@ -149,6 +149,13 @@ def run(ctx):
     vs = [s_ for s_ in f.stores('valid_copy')]
     rc.expect(all((s_.rhs.s == '%s->owner_device' % data) or (s_.rhs.s == 'i' and f.guarded_by(s_.point, lambda a, t: a.s.endswith(']->coherency_state') and t is True)) for s_ in vs) and len(vs) == 2,
               'start:source-valid', f.where(), 'the source is the owner device or, without owner, a copy that is not INVALID', note='source = owner, else a valid copy')
+    # the recorded owner holds the newest version: another valid copy may only be chosen when there is no owner (-1)
+    scan = [s_ for s_ in vs if s_.rhs is not None and s_.rhs.s != '%s->owner_device' % data]
+    def no_owner(a, t):
+        return t is True and a.k == 'bin' and a.op == '==' and {a.ch[0].s, a.ch[1].s} >= {'valid_copy'} and any((x.cv == -1) or (x.k == 'un' and x.op == '-' and x.ch[0].cv == 1) for x in a.ch)
+    rc.expect(bool(scan) and all(f.guarded_by(s_.point, no_owner) for s_ in scan), 'start:source-owner-first', scan[0].loc if scan else f.where(),
+              'a copy other than the owner\'s may become the transfer source only when no owner is recorded (valid_copy == -1): a SHARED copy can be older than the OWNED one, the owner holds the newest version',
+              note='another valid copy is the source only when there is no owner')
     # ---- R26.d
     g = u.func('parsec_data_end_transfer_ownership_to_copy')
     if g is None:
